@@ -185,6 +185,8 @@ pub fn decode_inst(t: &Tape, cfg: &GenCfg, prefix: &str) -> Inst {
     let drecs = t.sec(S_DEPS);
     let ndeps = drecs.len().clamp(1, cfg.max_departures.max(1));
     let jitter_mode = pick_w(f(p, 17), &[4, 1]);
+    let short_dates = pick_w(f(p, 13), &[3, 1]) == 1;
+    let fmt = |t: i64| if short_dates { fmt_time_short(t) } else { fmt_time(t) };
     let mut departures = Vec::new();
     let mut total_need = 0u64;
     for i in 0..ndeps {
@@ -235,7 +237,7 @@ pub fn decode_inst(t: &Tape, cfg: &GenCfg, prefix: &str) -> Inst {
             segs.push(DSeg {
                 id: format!("{}P{}S{}", prefix, i, k),
                 rseg: rs.id.clone(),
-                departure: fmt_time(time),
+                departure: fmt(time),
                 passengers,
                 seated,
             });
@@ -257,8 +259,8 @@ pub fn decode_inst(t: &Tape, cfg: &GenCfg, prefix: &str) -> Inst {
         slot_list.push(SlotIn {
             id: format!("{}M{}", prefix, i),
             location: locs[loc].clone(),
-            start: fmt_time(base + tick * TICK),
-            end: fmt_time(base + tick * TICK + duration),
+            start: fmt(base + tick * TICK),
+            end: fmt(base + tick * TICK + duration),
             tracks,
         });
     }
@@ -328,6 +330,7 @@ pub fn decode_inst(t: &Tape, cfg: &GenCfg, prefix: &str) -> Inst {
         max_distance,
         costs,
         nulls: pick_w(f(p, 11), &[3, 1]) == 1,
+        day_limits: (0..nlocs).map(|i| if pick_w(f(p, 12).rotate_left(i as u32 * 3), &[3, 1]) == 1 { Some(5) } else { None }).collect(),
     }
 }
 
@@ -424,6 +427,12 @@ pub fn inst_classes(fl: &Flat) -> Vec<&'static str> {
     }
     if inst.nulls {
         c.push("null_optionals");
+    }
+    if inst.departures.iter().any(|d| d.segs.iter().any(|s| s.departure.len() < 19)) {
+        c.push("short_date_format");
+    }
+    if inst.day_limits.iter().any(|d| d.is_some()) {
+        c.push("day_limit_present");
     }
     c
 }
